@@ -315,7 +315,43 @@ fn entry_points() -> Vec<(&'static str, Gen)> {
     v
 }
 
+/// conservation between what an entry point returns and what the process drew from the kernel: run under strace (see
+/// props._c11_strace), each call is bracketed by marker system calls (a write to fd -1, which fails and is logged);
+/// the orchestrator sums the getrandom(2) results between the markers and compares with the bytes returned
+fn draw_probe(eps: &[(&'static str, Gen)]) {
+    fn mark(text: &str) {
+        unsafe { libc::write(-1, text.as_ptr() as *const libc::c_void, text.len()) };
+    }
+    // large raw requests as well: a generator that stretches a short seed only shows beyond some size
+    let big: [(&'static str, Gen); 3] = [
+        ("randombytes_buf(1025)", || vec![randombytes_buf(1025)]),
+        ("randombytes_buf(70000)", || vec![randombytes_buf(70_000)]),
+        ("copy_randombytes(5000)", || {
+            let mut b = vec![0u8; 5000];
+            copy_randombytes(&mut b);
+            vec![b]
+        }),
+    ];
+    for (name, f) in eps.iter().chain(big.iter()) {
+        let lname = name.to_lowercase();
+        // only entry points whose every returned byte is raw randomness
+        if lname.contains("keypair") || lname.contains("seal") || lname.contains("pwhash") || lname.contains("heap") || lname.contains("locked") || lname.contains("257..600") {
+            continue;
+        }
+        for rep in 0..2 {
+            mark(&format!("VMARK|BEGIN|{}|{}", name, rep));
+            let vals = f();
+            let total: usize = vals.iter().map(|v| v.len()).sum();
+            mark(&format!("VMARK|END|{}|{}|{}", name, rep, total));
+        }
+    }
+}
+
 pub fn run(cx: &mut Ctx) {
+    if cx.opt("draw_probe").is_some() {
+        draw_probe(&entry_points());
+        return;
+    }
     let n = cx.tier.pick(24usize, 256, 4096);
     let only_nightly = cx.opt("nightly_forms_only").is_some();
     let eps = entry_points();
